@@ -73,7 +73,18 @@ def run(ctx):
         "C18.int64_agrees / contains_iff_int64 / intersects_iff_int64 / intersect_spec_int64 prove the laws for machine "
         "integers under explicit no-overflow conditions, C18.int64_wrap_contrast shows them fail beyond. The `ri` "
         "stream (model at Int) keeps to inputs on which no intermediate value of the source leaves int64 (pairs shifted "
-        "to the corners of the range and to 2^40..2^61); the arith stream likewise",
+        "to the corners of the range and to 2^40..2^61). The Point/Size/Rect arithmetic of area `arith` is likewise ALSO "
+        "run at Int64 (stream `aw`: operands at the limits, overflowing sums / differences / products, MinInt / -1, "
+        "division by zero); C18.int64_expand_inset_agree / expand_spec_int64 / int64_point_size_agree prove agreement "
+        "with the integer functions under the no-overflow conditions of exactly the operations each method performs, "
+        "C18.int64_arith_wrap_contrast shows the failure beyond",
+        "float64 UNDER ROUNDING, model-based (stream `rd` of area rect): the same polymorphic rectangle functions run at "
+        "Lean's Float (IEEE double) on the non-dyadic pairs of the floatspec generator (fractional coordinates and "
+        "sizes, abutting through the rounded far edge, an edge one ulp off, probe points on an edge and one ulp beside "
+        "it, tiny/large/mixed magnitudes) and are compared with Go bit for bit (IEEE bit patterns; both zeros as 0): "
+        "Contains / Intersects / Intersect / Union / Point.In / Expand / Inset / Empty / Right / Bottom / Center / the "
+        "corners. A predicate that rounds the far edge differently from the source (offset form p.X-r.X < r.Width) is "
+        "reported on a float input. Trusted here: Lean's Float is the platform's IEEE double (+, -, /2, comparisons)",
         "Matrix.Rotate/NewRotationMatrix are modelled with (sin, cos) as parameters; the harness passes the float64 "
         "values of math.Sin/math.Cos (exact comparison on matrices whose products with them are exact); the general "
         "rotation laws are checked implementation-side (area `rotate`, no Lean model): Rotate, RotateByDegrees, "
@@ -99,8 +110,9 @@ def run(ctx):
         "float rounding is not covered by the theorems: the Lean model computes in exact arithmetic (Int, Rat; Int64 with "
         "wrap-around for the rectangle layer) and the model-vs-code streams only use inputs on which every float "
         "operation is exact; integer overflow is covered for the rectangle predicates/Intersect/Union by the Int64 "
-        "theorems under their stated no-overflow conditions, and is outside the theorems for Expand, Inset and the "
-        "Point/Size arithmetic",
+        "theorems, for Expand/Inset and the Point/Size arithmetic by int64_expand_inset_agree / int64_point_size_agree, "
+        "all under their stated no-overflow conditions; Point.Div/Size.Div, Floor/Ceil, Center and Align at Int64 are "
+        "compared with Go (stream aw) but have no transport theorem",
         "what is evidenced under float rounding, exactly (no tolerance), by the implementation-side oracle `floatspec` "
         "on non-dyadic float64/float32 inputs of tiny, large and mixed magnitudes: Rect Contains / Intersects / "
         "Intersect / Union / Point.In (below); Contour.Bounds (every vertex In the bounds, strict) and Polygon.Bounds "
@@ -156,14 +168,15 @@ def run(ctx):
     th = "C18.%s (model = specification); impl != model on this input"
     ctx.diff(area="rect", driver="drv_c18", timeout=300, n={"quick": 400000, "thorough": 4000000}, tagger=tg,
              theorem=th % "contains_iff / intersects_iff / intersect_spec / union_covers / union_smallest / empty_absorbs / "
-                          "expand_spec / inset_spec / int64_agrees (stream rw)")
+                          "expand_spec / inset_spec / int64_agrees / int64_expand_inset_agree (stream rw); stream rd: the "
+                          "model at Lean Float under rounding")
     ctx.diff(area="matrix", driver="drv_c18", timeout=300, n={"quick": 200000, "thorough": 2000000}, tagger=tg,
              theorem=th % "transform_multiply / transform_translate / transform_scale / transform_rotate / identity_neutral")
     ctx.diff(area="poly", driver="drv_c18", timeout=300, n={"quick": 120000, "thorough": 2000000}, tagger=tg,
              theorem=th % "contour_contains_crossing / evenodd_crossing / polygon_contains_crossing / bounds_encloses / "
                           "bounds_tight / bounds_src_rat / transform_maps_vertices / transform_compose / empty_polygon")
     ctx.diff(area="arith", driver="drv_c18", timeout=300, n={"quick": 160000, "thorough": 2000000}, tagger=tg,
-             theorem=th % "transform_point_arith / constrain_spec / expand_spec / inset_spec")
+             theorem=th % "transform_point_arith / constrain_spec / int64_point_size_agree (stream aw)")
     ctx.impl_oracle("rotate", n={"quick": 20000, "thorough": 400000},
                     label="rotation law with rounding sin/cos products, tolerance 16 ulp of the largest term")
     _oracle(ctx, "compose", {"quick": 60000, "thorough": 1500000},
